@@ -228,6 +228,7 @@ def wrap_verbose(func):
     @wraps(func)
     def inner_verbose(*args, **kwargs):
 
+        current_level = None
         if ('verbose' in kwargs) and (kwargs['verbose'] is not None):
             tmp_level = kwargs['verbose']
             current_level = get_level()
@@ -235,11 +236,14 @@ def wrap_verbose(func):
         elif ('verbose' in kwargs):
             logger.warning("Logger level '{0}' not recognised - level is unchanged".format(kwargs['verbose']))
 
-        # Call function itself
-        func_output = func(*args, **kwargs)
-
-        if ('verbose' in kwargs) and (kwargs['verbose'] is not None):
-            set_level(level=logging._levelToName[current_level])
+        # Call function itself, putting the previous level back whether it
+        # returns or raises. There is nothing to restore if the logger has no
+        # console handler (get_level returns None before set_up is called).
+        try:
+            func_output = func(*args, **kwargs)
+        finally:
+            if current_level is not None:
+                set_level(level=logging._levelToName[current_level])
 
         return func_output
     return inner_verbose
